@@ -39,3 +39,8 @@ chk("C17", "PBT over recipes with un-initialised variable uses; oracle = indepen
     "Generated routines sprinkle loads and stores of local scratch variables over every control-flow shape; an independently written definite-assignment analysis over the recipe decides whether a store-free path to a load exists. Compilation must fail (naming a load of a flagged variable) exactly then; accepted programs are executed with uninitialised-read tracking.",
     "Trusts vf/recipe/dataflow.py (structured-control-flow semantics of the docs). Loads in dead code after an exit may be rejected or accepted (PyTeal merges blocks before checking); by-ref/dynamic writes are outside the generator.",
     "DESIGN.md section 2 C17")
+
+chk("C12", "PBT over explicit constant pools (all spellings/kinds/frequencies) + general programs: site-by-site alignment of plain vs assembleConstants output through the independent literal decoder, plus differential execution of both texts",
+    "Each generated program is compiled with and without assembleConstants; after removing the constant blocks the instruction lists must align, every constant site must denote the same value under the independent literal decoder (pushint/pushbytes, intc*/bytec* resolved through the block, index in range), every other instruction must be identical, and both texts must behave identically on generated inputs.",
+    "Trusts vf/teal/parser.py literal grammar and vf/avm.",
+    "DESIGN.md section 2 C12")
